@@ -46,6 +46,19 @@ def check_invariants(iw):
         if ck in seen_canon:
             return 'two live %s objects with canonical form %r (h%d, h%d)' % (cls.__name__, canon, seen_canon[ck], h)
         seen_canon[ck] = h
+        # macrostates and reactions: the canonical form is the sorted (multi)set of the members' canonical forms
+        if hasattr(o, 'representative'):
+            want = tuple(sorted(o.complexes, key=lambda c: c.canonical_form))
+            if tuple(o.canonical_form) != want or any(a is not b for a, b in zip(o.canonical_form, want)):
+                return 'h%d (%s %r): canonical form is not its members in canonical order' % (h, cls.__name__, name)
+        if hasattr(o, 'reactants') and hasattr(o, 'rtype'):
+            want = (tuple(sorted(x.canonical_form for x in o.reactants)), tuple(sorted(x.canonical_form for x in o.products)), o.rtype)
+            if o.canonical_form != want:
+                return 'h%d (%s %r): canonical form is not (sorted reactant forms, sorted product forms, type)' % (h, cls.__name__, name)
+            ik = (cls, 'reaction-class', repr(want))
+            if ik in seen_canon:
+                return 'two live %s objects for one (reactants, products, type) (h%d, h%d)' % (cls.__name__, seen_canon[ik], h)
+            seen_canon[ik] = h
         if cls._instanceNames.get(name) is not o:
             return 'live h%d (%s %r) is not the object registered under its name' % (h, cls.__name__, name)
         if cls._instanceCanon.get(canon) is not o:
@@ -88,7 +101,7 @@ def run_checked(iw, lines, res, prop, check_domains=False, prefix=()):
                               'a refused request leaves every live object and every name binding unchanged')
         bad = check_invariants(iw)
         if bad:
-            res.violation('singleton-invariant:' + bad.split(' (')[0][:60], {'history': list(prefix) + lines[:k + 1]}, bad,
+            res.violation('singleton-invariant:' + __import__('re').sub(r'h\d+', 'hN', bad.split(': ', 1)[-1] if bad.startswith('h') else bad.split(' (h')[0])[:70], {'history': list(prefix) + lines[:k + 1]}, bad,
                           'one live object per name and per canonical form; both keys lead to it')
         if check_domains:
             bad = domain_lengths_agree(iw)
